@@ -102,7 +102,7 @@ def xml_member(gen, name, t, v, ns, pref):
         return '<%s xsi:nil="true"/>' % q
     k = t['k']
     if k in ('prim', 'enum'):
-        return '%s<%s>%s</%s>' % (_between(), q, _noisy_text(xml_escape(lex(v))), q)
+        return '%s<%s>%s</%s>' % (_between(), q, _noisy_text(xml_escape(lex(v, binary=(t.get('facets') or {}).get('encoding', 'base64')))), q)
     if k == 'obj':
         return '%s<%s%s>%s</%s>' % (_between(), q, xml_attrs(t, v), xml_fields(gen, t, v, pref), q)
     if k == 'arr':
